@@ -1,5 +1,7 @@
 package runtime
 
+import "github.com/smarthome-go/homescript/v3/homescript/compiler"
+
 func (self *Core) importItem(module string, toImport string) {
 	val, found := (self.Executor).GetBuiltinImport(module, toImport)
 	if !found {
@@ -8,6 +10,6 @@ func (self *Core) importItem(module string, toImport string) {
 
 	self.parent.globals.Mutex.Lock()
 	defer self.parent.globals.Mutex.Unlock()
-	// TODO: is this really legal
-	self.parent.globals.Data[toImport] = val
+	// Kept under a name of its own: another module may import an item of the same name from another host module.
+	self.parent.globals.Data[compiler.HostImportIdent(module, toImport)] = val
 }
